@@ -692,6 +692,26 @@ class Conformance:
                 if v2.infra:
                     infra = v2.infra
                     confirmed = False
+                if not confirmed and not infra and case_seg_start is None and ci > 0:
+                    # the outcome may depend on what the process did before (library context left by earlier
+                    # cases): re-run growing windows of the preceding cases and judge the last case again
+                    wsz = 8
+                    while not confirmed:
+                        w0 = max(0, ci - wsz)
+                        window = cases[w0:ci + 1]
+                        open(cp, "w").write("\n".join(window) + "\n")
+                        evw = run_driver(exe, cp, os.path.join(rd, "trace.ndjson"), timeout=1200, args=driver_args)
+                        if event_map:
+                            evw = [event_map(x) for x in evw]
+                        last = [x for x in evw if x.get("i") == len(window) - 1]
+                        if last:
+                            vw = validate_trace(spec, last, os.path.join(rd, "tlcw"), shards=1, env=tenv,
+                                                timeout=600, cfg=spec_cfg)
+                            if vw.rejected and not vw.infra:
+                                confirmed, line, ev2 = True, "\n".join(window), last
+                        if w0 == 0:
+                            break
+                        wsz *= 8
             return e, ci, line, confirmed, ev2, infra
 
         with ThreadPoolExecutor(max_workers=8) as ex:
